@@ -394,14 +394,34 @@ func (c *SpecCtx) lookupLocal(name string) (Val, bool) {
 					}
 				}
 			}
-			for _, v := range c.f.dbg[name] {
-				if _, isPhi := v.(*ssa.Phi); !isPhi {
-					consider(v)
+			for k, v := range c.f.dbg[name] {
+				if _, isPhi := v.(*ssa.Phi); isPhi {
+					continue
 				}
+				// the assignment takes effect where it stands (its DebugRef), also when the value
+				// assigned is a constant or was computed earlier: the latest assignment that
+				// dominates the evaluation point is the visible one
+				if k < len(c.f.dbgBlk[name]) {
+					b := c.f.dbgBlk[name][k]
+					if b != cur && !b.Dominates(cur) {
+						continue
+					}
+					if _, isAlloc := v.(*ssa.Alloc); isAlloc {
+						continue
+					}
+					if bestBlk == nil || bestBlk == b || bestBlk.Dominates(b) {
+						best, bestBlk = v, b
+					}
+					continue
+				}
+				consider(v)
 			}
 			if best != nil {
 				if x, ok := c.f.env[best]; ok {
 					return x, true
+				}
+				if k, isConst := best.(*ssa.Const); isConst {
+					return c.f.constVal(k), true
 				}
 			}
 		}
